@@ -610,6 +610,105 @@ def rule_overlap(rep: Report, repo: Repo) -> None:
                   expected='adjacent pairs of the sorted half-open ranges: start2 < end1')
 
 
+_INPLACE_METHODS = {'append', 'extend', 'insert', 'clear', 'pop', 'remove', 'sort', 'reverse', 'update', 'setdefault', 'add', 'discard', 'popitem'}
+
+
+def rule_pool_owned(rep: Report, repo: Repo) -> None:
+    """the writer's containers are its own: it rewrites the data pool in place (relative jumps), so a pool that IS a caller's list
+    would change words the caller still uses for the next segment (and change them again when that list is added a second time)."""
+    rep.rule('C06.POOL-OWNED', 'every container attribute the Writer mutates in place (element store, +=, append/extend/..) is only ever '
+             'bound to a fresh object: a literal, a comprehension, a call, a slice or a concatenation - never to a parameter, to a value '
+             'read from a parameter, or to another object\'s attribute (an alias of a list the caller keeps)', 2)
+    cls = next((n for n in repo.mod(W).body if isinstance(n, ast.ClassDef) and n.name == 'Writer'), None)
+    if cls is None:
+        raise AnalysisError('C06.POOL-OWNED: class Writer not found in ' + W)
+
+    def self_attr(e: ast.AST) -> Optional[str]:
+        return e.attr if isinstance(e, ast.Attribute) and isinstance(e.value, ast.Name) and e.value.id == 'self' else None
+
+    mutated: Set[str] = set()
+    for n in ast.walk(cls):
+        if isinstance(n, (ast.Assign, ast.AugAssign, ast.AnnAssign, ast.Delete)):
+            tgts = n.targets if isinstance(n, (ast.Assign, ast.Delete)) else [n.target]
+            for t in tgts:
+                for sub in ast.walk(t):
+                    if isinstance(sub, ast.Subscript) and self_attr(sub.value):
+                        mutated.add(self_attr(sub.value))          # type: ignore[arg-type]
+            if isinstance(n, ast.AugAssign) and self_attr(n.target) and isinstance(n.op, (ast.Add, ast.BitOr, ast.Mult)):
+                mutated.add(self_attr(n.target))                    # type: ignore[arg-type]
+        if isinstance(n, ast.Call) and isinstance(n.func, ast.Attribute) and n.func.attr in _INPLACE_METHODS and self_attr(n.func.value):
+            mutated.add(self_attr(n.func.value))                    # type: ignore[arg-type]
+    # numbers are also `+=`-ed: a container is an attribute that (also) has an element store / in-place method, or a literal container binding
+    containers: Set[str] = set()
+    for n in ast.walk(cls):
+        if isinstance(n, (ast.Assign, ast.AnnAssign)) and n.value is not None:
+            for t in (n.targets if isinstance(n, ast.Assign) else [n.target]):
+                if self_attr(t) in mutated and isinstance(n.value, (ast.List, ast.Dict, ast.Set, ast.ListComp, ast.DictComp, ast.SetComp)):
+                    containers.add(self_attr(t))                    # type: ignore[arg-type]
+    if not {'data', 'segments'} <= containers:
+        raise AnalysisError(f'C06.POOL-OWNED: the data pool / segment table of the Writer were not recognised as its containers ({sorted(containers)})')
+
+    def fresh(e: ast.expr, fn: Any, depth: int = 0) -> Optional[str]:
+        """None when e is a new object; else what it aliases"""
+        if isinstance(e, (ast.List, ast.Dict, ast.Set, ast.Tuple, ast.ListComp, ast.DictComp, ast.SetComp, ast.GeneratorExp, ast.Constant,
+                          ast.JoinedStr, ast.Call, ast.BinOp, ast.Compare, ast.UnaryOp)):
+            return None
+        if isinstance(e, ast.Subscript):
+            return None if isinstance(e.slice, ast.Slice) else f'the element {norm(e)} of another container'
+        if isinstance(e, ast.IfExp):
+            return fresh(e.body, fn, depth) or fresh(e.orelse, fn, depth)
+        if isinstance(e, ast.BoolOp):
+            return next((r for r in (fresh(v, fn, depth) for v in e.values) if r), None)
+        if isinstance(e, ast.NamedExpr):
+            return fresh(e.value, fn, depth)
+        if isinstance(e, ast.Attribute):
+            return f'the attribute {norm(e)}'
+        if isinstance(e, ast.Name):
+            params = {a.arg for a in fn.args.posonlyargs + fn.args.args + fn.args.kwonlyargs} | {a.arg for a in (fn.args.vararg, fn.args.kwarg) if a}
+            defs = [d for d in walk_no_nested(fn) if isinstance(d, (ast.Assign, ast.AnnAssign)) and d.value is not None and any(
+                isinstance(t, ast.Name) and t.id == e.id for t in (d.targets if isinstance(d, ast.Assign) else [d.target]))]
+            others = [d for d in walk_no_nested(fn) if (isinstance(d, (ast.For, ast.AugAssign, ast.withitem, ast.NamedExpr)) and any(
+                isinstance(x, ast.Name) and x.id == e.id and isinstance(x.ctx, ast.Store) for x in ast.walk(
+                    d.target if isinstance(d, (ast.For, ast.AugAssign, ast.NamedExpr)) else (d.optional_vars or ast.Pass()))))]
+            if e.id in params and not defs:
+                return f'the parameter `{e.id}` (the caller\'s object)'
+            if depth > 4 or others:
+                return f'the name `{e.id}` (not a plain local of fresh values)'
+            res = [fresh(d.value, fn, depth + 1) for d in defs]
+            if e.id in params:
+                res.append(f'the parameter `{e.id}` (the caller\'s object)')
+            if not defs and e.id not in params:
+                return f'the non-local name `{e.id}`'
+            return next((r for r in res if r), None)
+        return f'`{norm(e)}`'
+
+    n_sites = 0
+    for fn in [m for m in cls.body if isinstance(m, (ast.FunctionDef, ast.AsyncFunctionDef))]:
+        for st in walk_no_nested(fn):
+            pairs: List[Tuple[ast.expr, ast.expr]] = []
+            if isinstance(st, ast.Assign):
+                for t in st.targets:
+                    if isinstance(t, (ast.Tuple, ast.List)) and isinstance(st.value, (ast.Tuple, ast.List)) and len(t.elts) == len(st.value.elts):
+                        pairs += list(zip(t.elts, st.value.elts))
+                    else:
+                        pairs.append((t, st.value))
+            elif isinstance(st, ast.AnnAssign) and st.value is not None:
+                pairs.append((st.target, st.value))
+            for t, v in pairs:
+                a = self_attr(t)
+                if a in containers:
+                    n_sites += 1
+                    why = fresh(v, fn)
+                    rep.check(why is None, 'C06.POOL-OWNED', f'Writer.{fn.name}:self.{a} = {norm(v)[:50]}',
+                              'bound to a fresh object' if why is None else f'self.{a} becomes {why}: the Writer later changes it in place '
+                              f'(relative-jump rewrite / extension), which changes the other holder\'s data', repo.site(W, st),
+                              expected='a copy: list(x) / x[:] / `self.data += x`')
+                elif isinstance(t, (ast.Tuple, ast.List)) and any(self_attr(x) in containers for x in ast.walk(t)):
+                    rep.fail('C06.POOL-OWNED', f'Writer.{fn.name}:{norm(t)}', 'container attribute bound by an unpacking the rule cannot pair with its value', repo.site(W, st))
+    if n_sites < 2:
+        raise AnalysisError(f'C06.POOL-OWNED: {n_sites} bindings of Writer containers found (the two in __init__ expected)')
+
+
 def check(rep: Report, repo: Optional[Repo] = None) -> None:
     repo = repo or Repo()
     rep.units = dict(files=[W, R, K], functions=['Writer.write_to_file', 'Writer.add_segment', 'Writer._update_to_relative_jumps',
@@ -623,6 +722,7 @@ def check(rep: Report, repo: Optional[Repo] = None) -> None:
     rule_writer_validates(rep, repo)
     rule_overlap(rep, repo)
     rule_range_exact(rep, repo)
+    rule_pool_owned(rep, repo)
     rep.not_decided.append('equality of the loaded image for all writer call sequences (value-level)')
     rep.assumptions.append('struct and lzma behave as documented (one-shot lzma.decompress checks the end marker)')
 
